@@ -1,4 +1,5 @@
 import PintModel.Props.C04
+import PintModel.Model.StaticFlow
 /-!
 # C12 — a "dead code" report is never a false positive
 
@@ -705,5 +706,282 @@ theorem flag_has_rejection : ∀ e : Expr, 0 < (neverMatched e).sum → rejectsS
 example :
     let e := Expr.setOr true ["job"] (.sel [{ label := "job", kind := .eq }]) (.aggBy ["instance"] (.sel []))
     rejectsSomewhere e = false ∧ (neverMatched e).sum = 0 := by decide
+
+/-! ## static comparison folding (`calculateStaticReturn`): a query declared dead returns nothing
+
+On the closed, `bool`-free expressions of `Model/StaticFlow` (integer literals, `vector(...)`, unary minus, `+ - *`,
+comparisons): the number pint computes is the value the query returns whenever it returns one, and a query it declares
+dead returns no sample.  With `bool` the statement is false (`static_bool_not_sound`, the recorded finding
+`C12-static-bool`). -/
+section staticFold
+open Pint.StaticFlow
+set_option linter.unusedSimpArgs false
+
+theorem static_bin_all (op : Op) (b : Bool) (l r : SE)
+    (la : (static l).always = true) (lk : (static l).known = true)
+    (ra : (static r).always = true) (rk : (static r).known = true) :
+    static (.bin op b l r) =
+      if isVec l && isVec r then
+        { (static l) with num := (fold op (static l).num (static r).num (static l).dead).1,
+                          dead := (fold op (static l).num (static r).num (static l).dead).2 }
+      else
+        { (if isVec l then static l else if isVec r then static r else static l) with
+            dead := (fold op (static l).num (static r).num (static l).dead).2,
+            num := if op.isCmp then (if isVec l then static l else if isVec r then static r else static l).num
+                   else (fold op (static l).num (static r).num (static l).dead).1 } := by
+  simp [static, la, lk, ra, rk]
+
+theorem fold_arith (op : Op) (a b : Int) (d : Bool) (hc : op.isCmp = false) : fold op a b d = (op.arith a b, d) := by
+  simp [fold, hc]
+theorem fold_cmp_true (op : Op) (a b : Int) (d : Bool) (hc : op.isCmp = true) (hh : op.holds a b = true) : fold op a b d = (a, d) := by
+  simp [fold, hc, hh]
+theorem fold_cmp_false (op : Op) (a b : Int) (d : Bool) (hc : op.isCmp = true) (hh : op.holds a b = false) : fold op a b d = (a, true) := by
+  simp [fold, hc, hh]
+theorem apply_arith (op : Op) (a b k : Int) (hc : op.isCmp = false) : apply op false a b k = some (op.arith a b) := by
+  simp [apply, hc]
+theorem apply_cmp_true (op : Op) (a b k : Int) (hc : op.isCmp = true) (hh : op.holds a b = true) : apply op false a b k = some k := by
+  simp [apply, hc, hh]
+theorem apply_cmp_false (op : Op) (a b k : Int) (hc : op.isCmp = true) (hh : op.holds a b = false) : apply op false a b k = none := by
+  simp [apply, hc, hh]
+
+/-- what the analysis knows about `e`, against what `e` evaluates to -/
+def Agrees (e : SE) : Prop :=
+  (static e).always = true ∧ (static e).known = true ∧
+  (isVec e = false → eval e = .s (static e).num ∧ (static e).dead = false) ∧
+  (isVec e = true → ∃ x, eval e = .v x ∧ (∀ k, x = some k → k = (static e).num) ∧ ((static e).dead = true → x = none))
+
+theorem agrees_bin (op : Op) (l r : SE) (hl : Agrees l) (hr : Agrees r)
+    (ht : (isVec l || isVec r || !op.isCmp) = true) : Agrees (.bin op false l r) := by
+  obtain ⟨la, lk, ls, lv⟩ := hl
+  obtain ⟨ra, rk, rs, rv⟩ := hr
+  have hst := static_bin_all op false l r la lk ra rk
+  cases hvl : isVec l <;> cases hvr : isVec r
+  · -- scalar op scalar: arithmetic only
+    have hcmp : op.isCmp = false := by simpa [hvl, hvr] using ht
+    obtain ⟨el, dl⟩ := ls hvl
+    obtain ⟨er, _⟩ := rs hvr
+    simp only [hvl, hvr, Bool.and_self, Bool.false_eq_true, if_false, hcmp, fold_arith op _ _ _ hcmp] at hst
+    refine ⟨by rw [hst]; exact la, by rw [hst]; exact lk, ?_, ?_⟩
+    · intro _
+      rw [hst]
+      simp [eval, el, er, evalBin, hcmp, dl]
+    · intro h; simp [isVec, hvl, hvr] at h
+  · -- scalar op vector
+    obtain ⟨el, dl⟩ := ls hvl
+    obtain ⟨y, ey, hy, hdy⟩ := rv hvr
+    simp only [hvl, hvr, Bool.false_and, Bool.false_eq_true, if_false, if_true] at hst
+    refine ⟨by rw [hst]; exact ra, by rw [hst]; exact rk, ?_, ?_⟩
+    · intro h; simp [isVec, hvl, hvr] at h
+    · intro _
+      refine ⟨y.bind fun b => apply op false (static l).num b b, by simp [eval, el, ey, evalBin], ?_, ?_⟩
+      · intro k hk
+        cases y with
+        | none => simp at hk
+        | some b =>
+          have hb := hy b rfl
+          subst hb
+          simp only [Option.bind_some] at hk
+          rw [hst]
+          cases hc : op.isCmp
+          · rw [apply_arith _ _ _ _ hc] at hk
+            simp [hc, fold_arith _ _ _ _ hc]
+            exact (Option.some.inj hk).symm
+          · cases hh : op.holds (static l).num (static r).num
+            · rw [apply_cmp_false _ _ _ _ hc hh] at hk; cases hk
+            · rw [apply_cmp_true _ _ _ _ hc hh] at hk
+              simp [hc]
+              exact (Option.some.inj hk).symm
+      · intro hd
+        rw [hst] at hd
+        cases y with
+        | none => rfl
+        | some b =>
+          have hb := hy b rfl
+          subst hb
+          simp only [Option.bind_some]
+          cases hc : op.isCmp
+          · rw [fold_arith _ _ _ _ hc] at hd
+            simp [dl] at hd
+          · cases hh : op.holds (static l).num (static r).num
+            · exact apply_cmp_false _ _ _ _ hc hh
+            · rw [fold_cmp_true _ _ _ _ hc hh] at hd
+              simp [dl] at hd
+  · -- vector op scalar
+    obtain ⟨x, ex, hx, hdx⟩ := lv hvl
+    obtain ⟨er, _⟩ := rs hvr
+    simp only [hvl, hvr, Bool.and_false, Bool.false_eq_true, if_false, if_true] at hst
+    refine ⟨by rw [hst]; exact la, by rw [hst]; exact lk, ?_, ?_⟩
+    · intro h; simp [isVec, hvl, hvr] at h
+    · intro _
+      refine ⟨x.bind fun a => apply op false a (static r).num a, by simp [eval, er, ex, evalBin], ?_, ?_⟩
+      · intro k hk
+        cases x with
+        | none => simp at hk
+        | some a =>
+          have ha := hx a rfl
+          subst ha
+          simp only [Option.bind_some] at hk
+          rw [hst]
+          cases hc : op.isCmp
+          · rw [apply_arith _ _ _ _ hc] at hk
+            simp [fold_arith _ _ _ _ hc]
+            exact (Option.some.inj hk).symm
+          · cases hh : op.holds (static l).num (static r).num
+            · rw [apply_cmp_false _ _ _ _ hc hh] at hk; cases hk
+            · rw [apply_cmp_true _ _ _ _ hc hh] at hk
+              simp
+              exact (Option.some.inj hk).symm
+      · intro hd
+        rw [hst] at hd
+        cases x with
+        | none => rfl
+        | some a =>
+          have ha := hx a rfl
+          subst ha
+          simp only [Option.bind_some]
+          cases hc : op.isCmp
+          · rw [fold_arith _ _ _ _ hc] at hd
+            exact absurd (hdx hd) (by simp)
+          · cases hh : op.holds (static l).num (static r).num
+            · exact apply_cmp_false _ _ _ _ hc hh
+            · rw [fold_cmp_true _ _ _ _ hc hh] at hd
+              exact absurd (hdx hd) (by simp)
+  · -- vector op vector (one-to-one, neither side has labels)
+    obtain ⟨x, ex, hx, hdx⟩ := lv hvl
+    obtain ⟨y, ey, hy, _⟩ := rv hvr
+    simp only [hvl, hvr, Bool.and_self, if_true] at hst
+    refine ⟨by rw [hst]; exact la, by rw [hst]; exact lk, ?_, ?_⟩
+    · intro h; simp [isVec, hvl, hvr] at h
+    · intro _
+      refine ⟨x.bind fun a => y.bind fun b => apply op false a b a, by simp [eval, ex, ey, evalBin], ?_, ?_⟩
+      · intro k hk
+        cases x with
+        | none => simp at hk
+        | some a =>
+          cases y with
+          | none => simp at hk
+          | some b =>
+            have ha := hx a rfl
+            have hb := hy b rfl
+            subst ha; subst hb
+            simp only [Option.bind_some] at hk
+            rw [hst]
+            cases hc : op.isCmp
+            · rw [apply_arith _ _ _ _ hc] at hk
+              simp [fold_arith _ _ _ _ hc]
+              exact (Option.some.inj hk).symm
+            · cases hh : op.holds (static l).num (static r).num
+              · rw [apply_cmp_false _ _ _ _ hc hh] at hk; cases hk
+              · rw [apply_cmp_true _ _ _ _ hc hh] at hk
+                simp [fold_cmp_true _ _ _ _ hc hh]
+                exact (Option.some.inj hk).symm
+      · intro hd
+        rw [hst] at hd
+        cases x with
+        | none => rfl
+        | some a =>
+          cases y with
+          | none => rfl
+          | some b =>
+            have ha := hx a rfl
+            have hb := hy b rfl
+            subst ha; subst hb
+            simp only [Option.bind_some]
+            cases hc : op.isCmp
+            · rw [fold_arith _ _ _ _ hc] at hd
+              exact absurd (hdx hd) (by simp)
+            · cases hh : op.holds (static l).num (static r).num
+              · exact apply_cmp_false _ _ _ _ hc hh
+              · rw [fold_cmp_true _ _ _ _ hc hh] at hd
+                exact absurd (hdx hd) (by simp)
+
+theorem agrees : ∀ e : SE, closed e = true → boolFree e = true → wellTyped e = true → Agrees e := by
+  intro e
+  induction e with
+  | num k => intro _ _ _; simp [Agrees, static, eval, isVec]
+  | sel => intro hc; simp [closed] at hc
+  | vector e ih =>
+    intro hc hb ht
+    simp only [closed] at hc
+    simp only [boolFree] at hb
+    simp only [wellTyped, Bool.and_eq_true, Bool.not_eq_true'] at ht
+    obtain ⟨_, hk, hs, _⟩ := ih hc hb ht.2
+    obtain ⟨he, _⟩ := hs ht.1
+    simp [Agrees, static, eval, isVec, hk, he]
+  | neg e ih =>
+    intro hc hb ht
+    simp only [closed] at hc
+    simp only [boolFree] at hb
+    simp only [wellTyped] at ht
+    obtain ⟨ha, hk, hs, hv⟩ := ih hc hb ht
+    have hst : static (.neg e) = { (static e) with num := -(static e).num } := by simp [static, hk]
+    refine ⟨by rw [hst]; exact ha, by rw [hst]; exact hk, ?_, ?_⟩
+    · intro hve
+      simp only [isVec] at hve
+      obtain ⟨he, hd⟩ := hs hve
+      rw [hst]
+      simp [eval, he, hd]
+    · intro hve
+      simp only [isVec] at hve
+      obtain ⟨x, hx, hnum, hdead⟩ := hv hve
+      refine ⟨x.map fun k => -k, by simp [eval, hx], ?_, ?_⟩
+      · intro k hk'
+        rw [hst]
+        cases x with
+        | none => simp at hk'
+        | some a =>
+          have := hnum a rfl
+          simp at hk'
+          simp
+          omega
+      · intro hd
+        rw [hst] at hd
+        simp [hdead hd]
+  | bin op isBool l r ihl ihr =>
+    intro hc hb ht
+    simp only [closed, Bool.and_eq_true] at hc
+    simp only [boolFree, Bool.and_eq_true, Bool.not_eq_true'] at hb
+    simp only [wellTyped, Bool.and_eq_true] at ht
+    obtain ⟨⟨hbool, hbl⟩, hbr⟩ := hb
+    subst hbool
+    exact agrees_bin op l r (ihl hc.1 hbl ht.1.1) (ihr hc.2 hbr ht.1.2) (by simpa using ht.2)
+
+/-- **C12, static verdicts**: a closed, `bool`-free query that `calculateStaticReturn` declares dead returns nothing -/
+theorem static_dead_returns_nothing (e : SE) (hc : closed e = true) (hb : boolFree e = true) (ht : wellTyped e = true)
+    (hd : (static e).dead = true) : eval e = .v none := by
+  obtain ⟨_, _, hs, hv⟩ := agrees e hc hb ht
+  cases hve : isVec e
+  · have := (hs hve).2; rw [hd] at this; cases this
+  · obtain ⟨x, hx, _, hdead⟩ := hv hve
+    rw [hx, hdead hd]
+
+/-- and the number pint folds further is the value the query returns, whenever it returns one -/
+theorem static_number_is_the_value (e : SE) (hc : closed e = true) (hb : boolFree e = true) (ht : wellTyped e = true)
+    (k : Int) (hv : eval e = .v (some k) ∨ eval e = .s k) : (static e).num = k := by
+  obtain ⟨_, _, hs, hvec⟩ := agrees e hc hb ht
+  cases hve : isVec e
+  · have he := (hs hve).1
+    rcases hv with h | h
+    · rw [he] at h; cases h
+    · rw [he] at h; cases h; rfl
+  · obtain ⟨x, hx, hnum, _⟩ := hvec hve
+    rcases hv with h | h
+    · rw [hx] at h; cases h; exact (hnum k rfl).symm
+    · rw [hx] at h; cases h
+
+/-- with `bool` the statement is false of the model, as it is of the code (recorded finding `C12-static-bool`:
+`vector(0) > bool 2` is reported as dead code and returns 0) -/
+theorem static_bool_not_sound :
+    ∃ e : SE, closed e = true ∧ wellTyped e = true ∧ (static e).dead = true ∧ eval e = .v (some 0) :=
+  ⟨.bin .gt true (.vector (.num 0)) (.num 2), by decide⟩
+
+/-- non-vacuity: `vector(1) > 2` is declared dead, `(vector(3) > 2) + 1` is not and is known to return 4 -/
+example :
+    (static (.bin .gt false (.vector (.num 1)) (.num 2))).dead = true ∧
+    closed (.bin .gt false (.vector (.num 1)) (.num 2)) = true ∧ wellTyped (.bin .gt false (.vector (.num 1)) (.num 2)) = true ∧
+    static (.bin .add false (.bin .gt false (.vector (.num 3)) (.num 2)) (.num 1)) = ⟨true, true, 4, false⟩ ∧
+    eval (.bin .add false (.bin .gt false (.vector (.num 3)) (.num 2)) (.num 1)) = .v (some 4) := by decide
+
+end staticFold
 
 end Pint.Props.C12
